@@ -113,11 +113,11 @@ def gen_goal_spec(g, rnd, allow_maxsmt=True, strategy="linear"):
     return ("maxsmt", tuple(soft), False)
 
 
-def build_goal(env, spec, strategy):
+def build_goal(env, spec, strategy, real=None):
     kind, terms, signed = spec
     mgr = env.formula_manager
     if kind == "maxsmt":
-        real = any(isinstance(w, Fraction) for (_, w) in terms)
+        real = any(isinstance(w, Fraction) for (_, w) in terms) if real is None else real
         gl = MaxSMTGoal(real_weights=real)
         for (c, w) in terms:
             gl.add_soft_clause(pys.build(env, c), mgr.Real(w) if real else mgr.Int(w))
@@ -184,10 +184,10 @@ def model_interp(env, model):
     return I
 
 
-def check_case(run, system, specs, routine, strategy, kind, reverse, user_levels):
+def check_case(run, system, specs, routine, strategy, kind, reverse, user_levels, reuse=False):
     env = Environment()
     case = {"system": system, "goals": specs, "routine": routine, "strategy": strategy, "mixin": kind,
-            "reverse": reverse, "user_levels": user_levels}
+            "reverse": reverse, "user_levels": user_levels, "reuse": reuse}
     models = all_models(system)
     with env:
         opt = make_optimizer(kind)(env, reverse=reverse)
@@ -208,6 +208,35 @@ def check_case(run, system, specs, routine, strategy, kind, reverse, user_levels
         goals = [build_goal(env, s, strategy) for s in specs]
         nontriv = False
         try:
+            if reuse:
+                # goal objects are used twice: first with the routine as it is (result dropped); MaxSMT goals then
+                # receive their remaining soft clauses (built with a prefix first)
+                def first():
+                    pre = []
+                    for s0 in specs:
+                        if s0[0] == "maxsmt" and len(s0[1]) >= 2:
+                            pre.append(build_goal(env, ("maxsmt", s0[1][:len(s0[1]) // 2], s0[2]), strategy,
+                                                  real=any(isinstance(w, Fraction) for (_, w) in s0[1])))
+                        else:
+                            pre.append(build_goal(env, s0, strategy))
+                    if routine == "optimize":
+                        opt.optimize(pre[0], strategy=strategy)
+                    elif routine == "boxed":
+                        opt.boxed_optimize(pre, strategy=strategy)
+                    elif routine == "lexicographic":
+                        opt.lexicographic_optimize(pre, strategy=strategy)
+                    else:
+                        list(itertools.islice(opt.pareto_optimize(pre), 0, 200))
+                    mgr = env.formula_manager
+                    for j, s0 in enumerate(specs):
+                        if s0[0] == "maxsmt" and len(s0[1]) >= 2:
+                            real = any(isinstance(w, Fraction) for (_, w) in s0[1])
+                            for (c, w) in s0[1][len(s0[1]) // 2:]:
+                                pre[j].add_soft_clause(pys.build(env, c), mgr.Real(w) if real else mgr.Int(w))
+                    return pre
+                goals = with_timeout(20, first)
+                run.cls("goal-objects-reused")
+
             def call():
                 if routine == "optimize":
                     return opt.optimize(goals[0], strategy=strategy)
@@ -316,7 +345,7 @@ def check_case(run, system, specs, routine, strategy, kind, reverse, user_levels
                              "after %s the user's pop does not remove the user's level" % routine)
         except BackendError as e:
             run.fail({"subcheck": "opt:stack-not-restored", "routine": routine, "mixin": kind}, case, "illegal pop afterwards: %s" % e)
-    run.case(key=(system, specs, routine, strategy, kind, reverse, user_levels), nontrivial=nontriv,
+    run.case(key=(system, specs, routine, strategy, kind, reverse, user_levels, reuse), nontrivial=nontriv,
              sample={"routine": routine, "strategy": strategy, "mixin": kind, "goals": [s[0] for s in specs],
                      "models": len(models)} if nontriv and len(specs) > 1 else None)
     run.cls("routine:" + routine)
@@ -341,7 +370,8 @@ def shard(shard, seed, n):
         allow_ms = routine in ("optimize", "boxed")
         ng = 1 if routine == "optimize" else rnd.randint(2, 3) if routine != "pareto" else 2
         specs = tuple(gen_goal_spec(g, rnd, allow_ms, strategy) for _ in range(ng))
-        check_case(run, tuple(system), specs, routine, strategy, kind, rnd.random() < 0.5, rnd.choice([0, 0, 1, 2]))
+        check_case(run, tuple(system), specs, routine, strategy, kind, rnd.random() < 0.5, rnd.choice([0, 0, 1, 2]),
+                   reuse=rnd.random() < 0.3)
     drive(body, st.randoms(use_true_random=True), n, derive_seed(seed, "c18", shard))
     return run
 
@@ -366,7 +396,7 @@ def replay(rec):
     run = Run(PID, known=[])
     c = rec["case"]
     check_case(run, tuple(c["system"]), tuple(tuple(s) for s in c["goals"]), c["routine"], c["strategy"], c["mixin"],
-               c["reverse"], c["user_levels"])
+               c["reverse"], c["user_levels"], reuse=c.get("reuse", False))
     if run.violations:
         print("VIOLATION property=%s replay=(replayed)" % PID)
         print(run.violations[0]["detail"])
